@@ -110,26 +110,73 @@ func (g *vC23Gen) h265NALU(size int) []byte {
 	}
 	typ := vPick(g.r, []byte{0, 1, 1, 1, 8, 9, 16, 19, 19, 20, 21, 32, 33, 34, 35, 39, 39, 40, 2, 3})
 	b := g.fill(size)
-	b[0] = typ << 1
-	b[1] = 1
+	b[0] = typ<<1 | byte(g.r.Intn(2))          // nuh_layer_id bit 5
+	b[1] = byte(g.r.Intn(32))<<3 | byte(1+g.r.Intn(7)) // nuh_layer_id bits 4..0, nuh_temporal_id_plus1
 	return b
 }
 
-func vC23GenH265(g *vC23Gen, max int, _ bool) (unit.Payload, string) {
-	k := 1 + g.r.Intn(4)
-	var au [][]byte
-	cl := "small"
-	for i := 0; i < k; i++ {
-		s, c := g.sizeClass(max)
-		if c != "small" {
-			cl = c
-		}
-		au = append(au, g.h265NALU(s))
-		if c == "big" {
-			break
+func vC23GenH265(g *vC23Gen, max int, last bool) (unit.Payload, string) {
+	if vC23Big && last {
+		return unit.PayloadH265{g.h265NALU(vPick(g.r, []int{65535, 65536, 65537, 65538, 70001}))}, "big"
+	}
+	if last && g.r.Chance(1, 8) {
+		// outside the precondition of the RTP/H265 packetisation
+		switch g.r.Intn(6) {
+		case 0: // a NAL unit without its two-byte header, alone: sent as a single NAL unit packet, the decoder refuses it
+			return unit.PayloadH265{{byte(g.r.Intn(64)) << 1}}, "outside-precondition"
+		case 1: // the same inside an aggregation packet: the encoder returns "invalid NALU"
+			return unit.PayloadH265{g.h265NALU(3), {2}, g.h265NALU(2)}, "outside-precondition"
+		case 2: // ... after a fragmented NAL unit of the same access unit (the sequence numbers already used stay used)
+			return unit.PayloadH265{g.h265NALU(max + 3 + g.r.Intn(max)), {2}, g.h265NALU(2)}, "outside-precondition"
+		case 3: // RTP-only NAL unit type in a single NAL unit packet
+			n := g.h265NALU(2 + g.r.Intn(max-2))
+			n[0] = byte(48+g.r.Intn(3)) << 1
+			return unit.PayloadH265{n}, "outside-precondition"
+		case 4: // start code inside a fragmented NAL unit
+			n := g.h265NALU(max + 8 + g.r.Intn(max))
+			k := 3 + g.r.Intn(len(n)-7)
+			n[k], n[k+1], n[k+2] = 0, 0, 1
+			return unit.PayloadH265{n}, "outside-precondition"
+		default: // more NAL units than the decoder accepts in one access unit (21)
+			var au [][]byte
+			for i := 0; i < 22+g.r.Intn(5); i++ {
+				au = append(au, g.h265NALU(2+g.r.Intn(3)))
+			}
+			return unit.PayloadH265(au), "outside-precondition"
 		}
 	}
-	return unit.PayloadH265(au), cl
+	switch g.r.Intn(6) {
+	case 0:
+		return unit.PayloadH265{g.h265NALU(2 + g.r.Intn(max-2))}, "single"
+	case 1:
+		var au [][]byte
+		k := 2 + g.r.Intn(4)
+		for i := 0; i < k; i++ {
+			s := (max-2)/k - 2 + g.r.Intn(3) - 1
+			if g.r.Chance(1, 4) {
+				s = 2 + g.r.Intn(3)
+			}
+			au = append(au, g.h265NALU(s))
+		}
+		return unit.PayloadH265(au), "stap"
+	case 2:
+		s := g.size(max)
+		if s < max {
+			s += max
+		}
+		n := g.h265NALU(s)
+		if g.r.Chance(1, 3) {
+			n[0] |= 0x80 // forbidden_zero_bit: it survives RTP/H265 fragmentation
+		}
+		return unit.PayloadH265{n}, "fua"
+	default:
+		var au [][]byte
+		k := 2 + g.r.Intn(5)
+		for i := 0; i < k; i++ {
+			au = append(au, g.h265NALU(g.size(max)))
+		}
+		return unit.PayloadH265(au), "mixed"
+	}
 }
 
 // an OBU without size field: header byte (type, no extension, has_size = 0) + data
@@ -225,17 +272,29 @@ func vC23GenMJPEG(g *vC23Gen, max int, _ bool) (unit.Payload, string) {
 	return unit.PayloadMJPEG(img), c
 }
 
-// Opus packets: TOC byte + data; durations differ per TOC configuration
-func vC23GenOpus(g *vC23Gen, max int, _ bool) (unit.Payload, string) {
+// Opus packets: TOC byte + data; durations differ per TOC configuration and frame count code (code 3: the count is in
+// the second byte). RTP/Opus cannot fragment: a packet longer than the maximum is the known limitation.
+func vC23GenOpus(g *vC23Gen, max int, last bool) (unit.Payload, string) {
 	k := 1 + g.r.Intn(4)
 	var pp [][]byte
+	cl := "boundary"
 	for i := 0; i < k; i++ {
 		s := 1 + g.r.Intn(max)
+		switch g.r.Intn(6) {
+		case 0:
+			s = max - g.r.Intn(2)
+		case 1:
+			s = 1 + g.r.Intn(3)
+		}
+		if last && i == k-1 && g.r.Chance(1, 6) {
+			s = max + 1 + g.r.Intn(max)
+			cl = "oversized"
+		}
 		b := g.fill(s)
-		b[0] = byte(g.r.Intn(32))<<3 | byte(g.r.Intn(2))<<2 | byte(g.r.Intn(3)) // config, stereo, code 0..2
+		b[0] = byte(g.r.Intn(32))<<3 | byte(g.r.Intn(2))<<2 | byte(g.r.Intn(4)) // config, stereo, code 0..3
 		pp = append(pp, b)
 	}
-	return unit.PayloadOpus(pp), "boundary"
+	return unit.PayloadOpus(pp), cl
 }
 
 func vC23GenFrames(g *vC23Gen, max int) ([][]byte, string) {
@@ -314,15 +373,42 @@ func vC23GenAC3(g *vC23Gen, max int, _ bool) (unit.Payload, string) {
 	return unit.PayloadAC3(frames), "boundary"
 }
 
-func vC23GenG711(g *vC23Gen, max int, _ bool) (unit.Payload, string) {
-	s, c := g.sizeClass(max)
-	return unit.PayloadG711(g.fill(s)), c
+// samples: mostly whole sample frames (ss bytes each), sometimes a ragged end
+func vC23GenSamples(ss int) func(g *vC23Gen, max int, _ bool) (unit.Payload, string) {
+	return func(g *vC23Gen, max int, _ bool) (unit.Payload, string) {
+		s, c := g.sizeClass(max)
+		if !g.r.Chance(1, 8) {
+			s = (s + ss - 1) / ss * ss
+		}
+		return unit.PayloadLPCM(g.fill(s)), c
+	}
 }
 
-func vC23GenLPCM(g *vC23Gen, max int, _ bool) (unit.Payload, string) {
-	s, c := g.sizeClass(max)
-	s = (s + 3) / 4 * 4 // whole sample frames: 16 bit, 2 channels
-	return unit.PayloadLPCM(g.fill(s)), c
+func vC23G711Fmt(chans int) *vC23Fmt {
+	gen := vC23GenSamples(chans)
+	f := &vC23Fmt{id: 13, name: "g711", avail: true, bytejoin: true, deltas: "bytes", spf: chans, bits: 8, chans: chans}
+	f.mk = func() format.Format {
+		pt := uint8(0)
+		if chans != 1 {
+			pt = 96
+		}
+		return &format.G711{PayloadTyp: pt, MULaw: true, SampleRate: 8000, ChannelCount: chans}
+	}
+	f.gen = func(g *vC23Gen, max int, l bool) (unit.Payload, string) {
+		p, c := gen(g, max, l)
+		return unit.PayloadG711(p.(unit.PayloadLPCM)), c
+	}
+	return f
+}
+
+func vC23LPCMFmt(bits, chans int) *vC23Fmt {
+	ss := bits * chans / 8
+	f := &vC23Fmt{id: 14, name: "lpcm", avail: true, bytejoin: true, deltas: "bytes", spf: ss, bits: bits, chans: chans}
+	f.mk = func() format.Format {
+		return &format.LPCM{PayloadTyp: 96, BitDepth: bits, SampleRate: 48000, ChannelCount: chans}
+	}
+	f.gen = vC23GenSamples(ss)
+	return f
 }
 
 func vC23GenKLV(g *vC23Gen, max int, _ bool) (unit.Payload, string) {
@@ -402,14 +488,8 @@ func vC23Formats() []*vC23Fmt {
 		{id: 12, name: "ac3", avail: true,
 			mk:  func() format.Format { return &format.AC3{PayloadTyp: 96, SampleRate: 48000, ChannelCount: 2} },
 			gen: vC23GenAC3, deltas: "frames", spf: 1536},
-		{id: 13, name: "g711", avail: true, bytejoin: true,
-			mk:  func() format.Format { return &format.G711{PayloadTyp: 0, MULaw: true, SampleRate: 8000, ChannelCount: 1} },
-			gen: vC23GenG711, deltas: "bytes", spf: 1},
-		{id: 14, name: "lpcm", avail: true, bytejoin: true,
-			mk: func() format.Format {
-				return &format.LPCM{PayloadTyp: 96, BitDepth: 16, SampleRate: 48000, ChannelCount: 2}
-			},
-			gen: vC23GenLPCM, deltas: "bytes", spf: 4},
+		vC23G711Fmt(1),
+		vC23LPCMFmt(16, 2),
 		{id: 15, name: "klv", avail: true,
 			mk:  func() format.Format { return &format.KLV{PayloadTyp: 96} },
 			gen: vC23GenKLV},
@@ -446,6 +526,45 @@ func vC23Directed(g *vC23Gen, fmts []*vC23Fmt) []vC23Scenario {
 		return append(append(key, byte(n)), g.fill(n)...)
 	}
 	var out []vC23Scenario
+	nal5 := func(n int) []byte { b := g.fill(n); b[0], b[1] = 19<<1, 1; return b }
+	opus := func(n int, toc byte) []byte { b := g.fill(n); b[0] = toc; return b }
+	// known limitation: an Opus packet longer than the maximum (two good units first: judged as the prefix case)
+	out = append(out, vC23Scenario{f: byName["opus"], max: 40, fixed: []unit.Payload{
+		unit.PayloadOpus{opus(40, 19<<3), opus(7, 18<<3|1)}, unit.PayloadOpus{opus(3, 19<<3|3)}, unit.PayloadOpus{opus(9, 19<<3), opus(41, 19<<3)}}})
+	// fixed 6728a85: a sample of all channels larger than the maximum (24 bit x 1000 channels = 3000 bytes): newRTPEncoder
+	// must refuse the format, the oversized packet is dropped with an error (before: integer divide by zero in Encode)
+	out = append(out, vC23Scenario{f: vC23LPCMFmt(24, 1000), max: 1440, rtp: true, fixedRTP: []unit.Payload{
+		unit.PayloadLPCM(g.fill(600)), unit.PayloadLPCM(g.fill(3000)), unit.PayloadLPCM(g.fill(600))}})
+	out = append(out, vC23Scenario{f: vC23G711Fmt(70), max: 64, rtp: true, fixedRTP: []unit.Payload{
+		unit.PayloadG711(g.fill(70)), unit.PayloadG711(g.fill(140))}})
+	// LPCM 24 bit 6 channels (18 bytes per sample) and G.711 around the packet boundaries
+	for _, max := range []int{18, 40, 130} {
+		mp := max / 18 * 18
+		var pp []unit.Payload
+		for _, n := range []int{18, mp - 18, mp, mp + 18, 2*mp - 18, 2 * mp, 2*mp + 18, 3*mp + 7} {
+			if n > 0 {
+				pp = append(pp, unit.PayloadLPCM(g.fill(n)))
+			}
+		}
+		out = append(out, vC23Scenario{f: vC23LPCMFmt(24, 6), max: max, fixed: pp})
+	}
+	// H.265 at every size around the single / aggregation / fragmentation boundaries for three maxima
+	for _, max := range []int{16, 100, 300} {
+		var pp []unit.Payload
+		for d := -4; d <= 3; d++ {
+			pp = append(pp, unit.PayloadH265{nal5(max + d)})
+		}
+		out = append(out, vC23Scenario{f: byName["h265"], max: max, fixed: pp})
+		pp = nil
+		for d := -2; d <= 2; d++ {
+			// two NAL units around one aggregation packet: 2 + 2 + a + 2 + b = max + d
+			a := (max - 6) / 2
+			pp = append(pp, unit.PayloadH265{nal5(a), nal5(max + d - 6 - a)})
+			// k * (max - 3) + 2 + d: around a whole number of fragmentation units
+			pp = append(pp, unit.PayloadH265{nal5(2*(max-3) + 2 + d)})
+		}
+		out = append(out, vC23Scenario{f: byName["h265"], max: max, fixed: pp})
+	}
 	// known finding (gortsplib): the first OBU fills the packet exactly, the second one is flagged as its continuation
 	out = append(out, vC23Scenario{f: byName["av1"], max: 37, fixed: []unit.Payload{unit.PayloadAV1{obu(35), obu(38)}}})
 	// fixed 1f79521: AC-3 frames larger than the maximum (1792 and 1536 bytes with the default maximum of 1440)
